@@ -33,6 +33,8 @@ RULE = ("BFS: state = event history replayed on a fresh circuit, canonical form 
 ASSUMPTIONS = ["float arithmetic for modulo 2.5 uses values exactly representable in binary"]
 
 MODS = [None, 1, 2, 7, 10, 2.5]
+BIG = 2 ** 53 + 1       # not representable as a float: catches silent float arithmetic
+BIG2 = 2 ** 60 + 3
 INITS = ['default', 3, 12, -4]
 
 
@@ -41,8 +43,13 @@ def configs(tier):
     for mod in MODS:
         for init in INITS:
             for via in ('ext', 'int'):
-                out.append(dict(kind='graph', mod=mod, init=init, via=via,
+                out.append(dict(kind='graph', mod=mod, init=init, via=via, stored=None,
                                 depth=(6 if tier == 'quick' else 8) if mod is None else None))
+            # the same search started from a state restored from the storage (differential:
+            # a restored counter must behave like one that reached the value by events)
+            for stored in (5, -13):
+                out.append(dict(kind='graph', mod=mod, init=init, via='ext', stored=stored,
+                                depth=(3 if tier == 'quick' else 5) if mod is None else None))
         for stored in (0, 5, 12, -1, -13, 2.5):
             out.append(dict(kind='restore', mod=mod, stored=stored))
     out.append(dict(kind='ctor'))
@@ -54,9 +61,14 @@ def alphabet(mod):
     if mod == 2.5:
         amounts.append(0.5)
     al = [(op, a) for op in ('inc', 'dec') for a in amounts]
-    al += [('put', v) for v in (0, 5, -1, 12)]
+    al += [('put', v) for v in (0, 5, -1, 12, BIG, -BIG2)]
     al += [('put', 'novalue'), ('reset', None), ('bogus', None)]
     return al
+
+
+def same(x, y):
+    """Exact arithmetic: same value and same numeric type as the reference computation."""
+    return type(x) is type(y) and x == y
 
 
 def ref_step(val, sym, mod, initdef):
@@ -87,13 +99,17 @@ def run_history(cfg, hist):
     initdef = 0 if init == 'default' else init
     info = {'steps': [], 'viol': []}
     with Sim() as sim:
-        cnt = edzed.Counter('cnt', modulo=mod, **kw)
+        if cfg.get('stored') is not None:
+            cnt = edzed.Counter('cnt', modulo=mod, persistent=True, **kw)
+            sim.circuit.set_persistent_data({cnt.key: cfg['stored'], 'edzed-stop-time': 0.0})
+        else:
+            cnt = edzed.Counter('cnt', modulo=mod, **kw)
         async def driver():
             task = asyncio.create_task(sim.circuit.run_forever())
             await sim.circuit.wait_init()
             red = (lambda x: x) if mod is None else (lambda x: x % mod)
-            val = red(initdef)
-            if cnt.output != val:
+            val = red(initdef if cfg.get('stored') is None else cfg['stored'])
+            if not same(cnt.output, val):
                 info['viol'].append(('initial-value',
                                      f"output {cnt.output!r} after init, expected {val!r}"))
             for sym in hist:
@@ -116,10 +132,10 @@ def run_history(cfg, hist):
                     if ret is not exp and not (isinstance(ret, type) and issubclass(ret, exp)):
                         info['viol'].append((f'error-reporting:{op}',
                                              f"{sym}: got {ret!r}, expected {exp.__name__} to the caller"))
-                elif isinstance(ret, type) or ret != exp:
+                elif isinstance(ret, type) or not same(ret, exp):
                     info['viol'].append((f'return-value:{op}',
                                          f"{sym} in state {val!r}: returned {ret!r}, expected {exp!r}"))
-                if cnt.output != new:
+                if not same(cnt.output, new):
                     info['viol'].append((f'arithmetic:{op}',
                                          f"{sym} in state {val!r} (mod {mod}): output {cnt.output!r}, expected {new!r}"))
                 if mod is not None and not 0 <= cnt.output < mod:
@@ -132,7 +148,7 @@ def run_history(cfg, hist):
                     info['dead'] = True
                     break
                 val = new
-            info['canon'] = (cfg['mod'], cfg['init'], cfg['via'],
+            info['canon'] = (cfg['mod'], cfg['init'], cfg['via'], cfg.get('stored') is not None,
                              fingerprint(cnt, skip=('comment', 'name', 'key', 'debug')))
             await stop(sim.circuit)
             del task
@@ -175,6 +191,10 @@ def run_config(cfg):
             sim.run(driver())
         acc.execs += 1
         exp = stored if mod is None else stored % mod
+        if not same(out['v'], exp):
+            acc.violation('C20:restore-not-reduced',
+                          f"restored {stored!r} with modulo {mod}: output {out['v']!r}, expected {exp!r}",
+                          cfg=cfg)
         acc.state(('restore', mod, stored, out['v']))
         acc.outcome(('restore', mod, stored, out['v']))
         if out['v'] != exp:
